@@ -294,6 +294,20 @@ def cast_matrix():
     return progs
 
 
+def compound_conversions():
+    """C03: `a op= b` computes in the common type and converts the result back to the type of a, for every pair of types"""
+    progs = []
+    for t1 in TYPES:
+        for t2 in TYPES:
+            for op in ("+=", "-=", "*=", "&=", "|=", "^="):
+                if op in ("*=", "&=", "^=") and (TYPES.index(t1) + TYPES.index(t2)) % 2:
+                    continue
+                progs.append((f"cmpd|{t1}|{t2}|{op}", f"{{ {t1} a = ({t1}) {src_for(t1)}; {t2} b = ({t2}) {src2_for(t2)}; a {op} b; RyyV = (int64_t) a; }}"))
+        for op in ("+=", "-=", "|="):
+            progs.append((f"cmpdreg|{t1}|{op}", f"{{ {t1} a = ({t1}) {src_for(t1)}; a {op} RvvV; RyyV = (int64_t) a; RxV {op} RvvV; }}"))
+    return progs
+
+
 def cast_exports(name):
     """exported locals (name, type) of a cast_matrix / chained_assignments program: their final value AND width are compared"""
     parts = name.split("|")
@@ -303,6 +317,10 @@ def cast_exports(name):
         return [("a", parts[1])] if len(parts) > 1 and parts[1] in TW else []
     if parts[0] == "boolnot":
         return [("a", parts[1]), ("b", parts[1])]
+    if parts[0] == "cmpd":
+        return [("a", parts[1]), ("b", parts[2])]
+    if parts[0] == "cmpdreg":
+        return [("a", parts[1])]
     if parts[0] == "chainasg":
         return [("a", parts[1]), ("b", parts[2]), ("c", parts[3])]
     if parts[0] == "chain4":
@@ -704,6 +722,9 @@ def fold_programs(rng: random.Random, n: int):
                        ("0x7ffffffffffffffeLL", "2", False), ("0xffffffffffffffffULL", "3", False), ("0x7fffffffffffffffLL", "2", True), ("9007199254740993LL", "1", False),
                        ("0xfffffffffffffffdULL", "0xfffffffffffffffdULL", False), ("18014398509481985LL", "2", True), ("0x8000000000000001ULL", "0x10", True)):
         T(f"div;{a};{b}", f"{{ RddV = {a} / {b}; }}", vk="div", must_reject=must)
+    # remainder of constants: may be rejected, a folded result has the sign of the dividend
+    for a, b in (("7", "3"), ("(-7)", "3"), ("7", "(-3)"), ("(-7)", "(-3)"), ("(-2147483647)", "10"), ("8", "4"), ("0xffffffffU", "7"), ("(-1)", "2U"), ("(-9223372036854775807LL)", "10")):
+        T(f"mod;{a};{b}", f"{{ RddV = {a} % {b}; }}", vk="mod")
     # (5) dead operands of a constant ?: that live code also uses
     dead = [
         ("reg_before", "{ ReV = RsV + RtV; RddV = 1 ? RuuV : RtV; }"),
